@@ -87,8 +87,9 @@ structure Brent (α : Type) where
   e : α
   log : Array α
 
-/-- one pass of the `for _ in 0..MAXITER` body; `none` = `break` -/
-def brentStep (L : Lits α) (g : α → α) (s : Brent α) : Option (Brent α) :=
+/-- one pass of the `for _ in 0..MAXITER` body; the Boolean is `false` on `break` (the re-bracketing and the swap
+    that precede the convergence test are kept, as in the code) -/
+def brentStep (L : Lits α) (g : α → α) (s : Brent α) : Brent α × Bool :=
   -- if fb * fc > 0 { c = a; fc = fa; d = b - a; e = d }
   let s := if s.fb * s.fc > L.zero then { s with c := s.a, fc := s.fa, d := s.b - s.a, e := s.b - s.a } else s
   -- if |fc| < |fb| { a = b; b = c; c = a; fa = fb; fb = fc; fc = fa }
@@ -96,7 +97,7 @@ def brentStep (L : Lits α) (g : α → α) (s : Brent α) : Option (Brent α) :
       { s with a := s.b, b := s.c, c := s.b, fa := s.fb, fb := s.fc, fc := s.fb } else s
   let tol1 := L.two * L.rtol * Num.abs s.b + L.half * L.xtol
   let xm := L.half * (s.c - s.b)
-  if Num.abs xm ≤ tol1 ∨ Num.eqb s.fb L.zero = true then none
+  if Num.abs xm ≤ tol1 ∨ Num.eqb s.fb L.zero = true then (s, false)
   else
     let (d, e) :=
       if Num.abs s.e ≥ tol1 ∧ Num.abs s.fa > Num.abs s.fb then
@@ -109,7 +110,7 @@ def brentStep (L : Lits α) (g : α → α) (s : Brent α) : Option (Brent α) :
             let r := s.fb / s.fc
             let sv := s.fb / s.fa
             (sv * (L.two * xm * qv * (qv - r) - (s.b - s.a) * (r - L.one)), (qv - L.one) * (r - L.one) * (sv - L.one))
-        let (p, q) := if q > L.zero then (-p, q) else (p, -q)
+        let (p, q) := if p > L.zero then (p, -q) else (-p, q)
         if L.two * p < Num.fmin (L.three * xm * q - Num.abs (tol1 * q)) (Num.abs (s.e * q)) then (p / q, s.d)
         else (xm, xm)
       else (xm, xm)
@@ -117,13 +118,13 @@ def brentStep (L : Lits α) (g : α → α) (s : Brent α) : Option (Brent α) :
     let fa := s.fb
     let b := if Num.abs d > tol1 then s.b + d else s.b + (if xm > L.zero then tol1 else -tol1)
     let fb := g b
-    some { s with a := a, fa := fa, b := b, fb := fb, d := d, e := e, log := s.log.push b }
+    ({ s with a := a, fa := fa, b := b, fb := fb, d := d, e := e, log := s.log.push b }, true)
 
 def brentLoop (L : Lits α) (g : α → α) : Nat → Brent α → Brent α
   | 0, s => s
   | k + 1, s => match brentStep L g s with
-    | none => s
-    | some s' => brentLoop L g k s'
+    | (s', false) => s'
+    | (s', true) => brentLoop L g k s'
 
 /-- refined event location in `[xold, x]` for one event function: `(t_e, y_e, evaluation times)` -/
 def locate (L : Lits α) (ip : Interp α) (gi : α → Array α → α) (xold x : α) (yold y : Array α) (gPrev gCurr : α) :
@@ -152,126 +153,168 @@ def insertEv (fwd : Bool) (e : α × Nat × Array α) : List (α × Nat × Array
 def sortEvs (fwd : Bool) (es : List (α × Nat × Array α)) : Option (List (α × Nat × Array α)) :=
   es.foldl (fun acc e => match acc with | none => none | some l => insertEv fwd e l) (some [])
 
+/-- requested output times of this step that are not beyond the terminal event at `te` (solout.rs, terminal branch) -/
+def dueBeforeEvent (fwd : Bool) (xold te : α) (ip : Interp α) (tev : Array α) : Nat → St α → St α
+  | 0, s => s
+  | f + 1, s =>
+    if h : s.nextIdx < tev.size then
+      let t := tev[s.nextIdx]
+      let due := if fwd then decide (t ≤ te) else decide (t ≥ te)
+      if due then
+        let inStep := if fwd then decide (t ≥ xold - s.tol) else decide (t ≤ xold + s.tol)
+        if inStep then
+          dueBeforeEvent fwd xold te ip tev f { s with t := s.t.push t, y := s.y.push (ip.eval t), nextIdx := s.nextIdx + 1 }
+        else dueBeforeEvent fwd xold te ip tev f { s with nextIdx := s.nextIdx + 1 }
+      else s
+    else s
+
+/-- record one located event: time, state, hit count -/
+def recordEv (s : St α) (te : α) (i : Nat) (ye : Array α) : St α :=
+  { s with tEvents := s.tEvents.modify i (·.push te), yEvents := s.yEvents.modify i (·.push ye),
+           eventHits := s.eventHits.modify i (· + 1) }
+
+/-- has event function `i` reached its terminal occurrence count? -/
+def fires (s : St α) (i : Nat) : Bool :=
+  match (s.cfg.getD i ⟨.all, none⟩).terminalCount with
+  | some limit => decide (s.eventHits.getD i 0 ≥ limit)
+  | none => false
+
+/-- the `t_eval` samples still due when a terminal event at `te` ends the step -/
+def terminalSamples (fwd : Bool) (xold te : α) (ip : Option (Interp α)) (s : St α) : St α :=
+  match s.tEval, ip with
+  | some tev, some ipv => dueBeforeEvent fwd xold te ipv tev (tev.size + 1) s
+  | _, _ => s
+
+def pushSample (s : St α) (t : α) (y : Array α) : St α := { s with t := s.t.push t, y := s.y.push y }
+
 /-- process the sorted events; returns the state and whether a terminal event fired -/
-def processEvs (s : St α) : List (α × Nat × Array α) → St α × Bool
+def processEvs (fwd : Bool) (xold : α) (ip : Option (Interp α)) (s : St α) : List (α × Nat × Array α) → St α × Bool
   | [] => (s, false)
   | (te, i, ye) :: rest =>
-    let s := { s with tEvents := s.tEvents.modify i (·.push te), yEvents := s.yEvents.modify i (·.push ye),
-                      eventHits := s.eventHits.modify i (· + 1) }
-    let fire := match (s.cfg.getD i ⟨.all, none⟩).terminalCount with
-      | some limit => decide (s.eventHits.getD i 0 ≥ limit)
-      | none => false
-    if fire then ({ s with t := s.t.push te, y := s.y.push ye }, true)
-    else processEvs s rest
+    if fires (recordEv s te i ye) i then
+      (pushSample (terminalSamples fwd xold te ip (recordEv s te i ye)) te ye, true)
+    else processEvs fwd xold ip (recordEv s te i ye) rest
+
+/-! ### Mode 1 (`t_eval`) sampling.  The two `while` loops of the code scan `t_eval` from `next_idx` while the entry is
+    inside the upper window of the step and push those inside the lower window; written here as
+    `takeWhile` / `filter` over the remaining entries (same order, same tests). -/
+
+/-- entries consumed by the initial callback: `while i < len && |t_eval[i] − x| ≤ tol` -/
+def takeInitial (tol x : α) (te : Array α) (idx : Nat) : List α :=
+  (te.toList.drop idx).takeWhile fun t => decide (Num.abs (t - x) ≤ tol)
+
+def sampleInitial (s : St α) (te : Array α) (x : α) (y : Array α) : St α :=
+  let taken := takeInitial s.tol x te s.nextIdx
+  { s with t := s.t ++ taken.toArray, y := s.y ++ (taken.map fun _ => y).toArray, nextIdx := s.nextIdx + taken.length }
+
+def inUpper (fwd : Bool) (tol x t : α) : Bool := if fwd then decide (t ≤ x + tol) else decide (t ≥ x - tol)
+def inLower (fwd : Bool) (tol xold t : α) : Bool := if fwd then decide (t ≥ xold - tol) else decide (t ≤ xold + tol)
+
+/-- entries consumed by a regular step: `while i < len && t_eval[i]` inside the upper window -/
+def takeStep (fwd : Bool) (tol x : α) (te : Array α) (idx : Nat) : List α :=
+  (te.toList.drop idx).takeWhile (inUpper fwd tol x)
+
+/-- regular accepted step; `none` = `interpolant.unwrap()` panics -/
+def sampleStep (s : St α) (te : Array α) (fwd : Bool) (xold x : α) (ip : Option (Interp α)) : Option (St α) :=
+  let taken := takeStep fwd s.tol x te s.nextIdx
+  let kept := taken.filter (inLower fwd s.tol xold)
+  match ip with
+  | some ipv =>
+    some { s with t := s.t ++ kept.toArray, y := s.y ++ (kept.map ipv.eval).toArray, nextIdx := s.nextIdx + taken.length }
+  | none =>
+    if kept.isEmpty then some { s with nextIdx := s.nextIdx + taken.length } else none
+
+/-- Dense Output Collection -/
+def denseCollect (L : Lits α) (s : St α) (xold x : α) (ip : Option (Interp α)) : St α :=
+  match ip with
+  | some i => if s.collectDense ∧ Num.eqb x xold = false ∧ Num.eqb i.h L.zero = false
+              then { s with denseSegs := s.denseSegs.push (i.xold, i.h) } else s
+  | none => s
+
+/-- first pass of the event block: locate every event whose function crossed in this step -/
+def locateAll (L : Lits α) (gEv : α → Array α → Array α) (s : St α) (xold x : α) (y gCurr : Array α)
+    (ip : Option (Interp α)) : Option (List (α × Nat × Array α) × Array α) :=
+  (List.range s.cfg.size).foldl (fun acc i =>
+    match acc with
+    | none => none
+    | some (lst, log) =>
+      let gp := s.prevEvent.getD i L.zero
+      let gc := gCurr.getD i L.zero
+      if crossed L gp gc (s.cfg.getD i ⟨.all, none⟩).dir then
+        match ip with
+        | some ipv =>
+          let r := locate L ipv (fun t yy => (gEv t yy).getD i L.zero) xold x s.yold y gp gc
+          some (lst ++ [(r.1, i, r.2.1)], log ++ r.2.2)
+        | none =>
+          -- `interpolant.unwrap()` is reached only in the Brent branch
+          if Num.abs gp ≤ L.xtol then some (lst ++ [(xold, i, s.yold)], log)
+          else if Num.abs gc ≤ L.xtol then some (lst ++ [(x, i, y)], log)
+          else none
+      else some (lst, log)) (some ([], #[]))
+
+/-- Event Detection; the Boolean says whether a terminal event fired (the callback then returns `Interrupt`
+    before the history update and the output sampling); `none` = panic -/
+def eventPhase (L : Lits α) (gEv : α → Array α → Array α) (s : St α) (xold x : α) (y : Array α)
+    (ip : Option (Interp α)) : Option (St α × Bool) :=
+  if s.cfg.size > 0 then
+    let gCurr := gEv x y
+    let s := { s with evalLog := s.evalLog.push x }
+    if s.yold.isEmpty then some ({ s with prevEvent := gCurr }, false)
+    else
+      match locateAll L gEv s xold x y gCurr ip with
+      | none => none
+      | some (lst, log) =>
+        match sortEvs (decide (x > xold)) lst with
+        | none => none
+        | some sorted =>
+          let r := processEvs (decide (x > xold)) xold ip { s with evalLog := s.evalLog ++ log } sorted
+          some ({ r.1 with prevEvent := gCurr }, r.2)
+  else some (s, false)
+
+/-- Mode 2 (solver-selected output): first-step enforcement, then the accepted endpoint unless it duplicates the
+    last sample -/
+def outputMode2 (s : St α) (xold x : α) (y : Array α) (ip : Option (Interp α)) : St α :=
+  let enforce : Option (St α) :=
+    match s.firstStep with
+    | some h0 =>
+      if ¬ s.firstOutputDone ∧ Num.abs (xold - x) > s.tol then
+        let direction := Num.signum (x - xold)
+        let target := s.x0 + direction * h0
+        if direction * (x - target) ≥ -s.tol then
+          let s := match ip with
+            | some ipv => { s with t := s.t.push target, y := s.y.push (ipv.eval target), firstOutputDone := true }
+            | none => s
+          let s := if Num.abs (x - target) > s.tol then { s with t := s.t.push x, y := s.y.push y } else s
+          some s
+        else some s
+      else none
+    | none => none
+  match enforce with
+  | some s => s
+  | none =>
+    let fresh := match s.t.back? with
+      | some last => decide (Num.abs (last - x) > s.tol)
+      | none => true
+    if fresh then { s with t := s.t.push x, y := s.y.push y } else s
+
+/-- Output Sampling; `none` = panic -/
+def outputPhase (s : St α) (xold x : α) (y : Array α) (ip : Option (Interp α)) : Option (St α) :=
+  match s.tEval with
+  | some te =>
+    if Num.abs (xold - x) ≤ s.tol then some (sampleInitial s te x y)
+    else sampleStep s te (decide (x > xold)) xold x ip
+  | none => some (outputMode2 s xold x y ip)
 
 /-- `solout(xold, x, y, interpolant)`; `gEv t y` are the user's event functions; `none` = panic -/
 def step (L : Lits α) (gEv : α → Array α → Array α) (s : St α) (xold x : α) (y : Array α) (ip : Option (Interp α)) :
     Option (St α × Flag) :=
-  -- Dense Output Collection
-  let s := match ip with
-    | some i => if s.collectDense ∧ Num.eqb x xold = false ∧ Num.eqb i.h L.zero = false
-                then { s with denseSegs := s.denseSegs.push (i.xold, i.h) } else s
-    | none => s
-  -- Event Detection
-  let nEv := s.cfg.size
-  let evRes : Option (St α × Bool) :=
-    if nEv > 0 then
-      let gCurr := gEv x y
-      let s := { s with evalLog := s.evalLog.push x }
-      if s.yold.isEmpty then some ({ s with prevEvent := gCurr }, false)
-      else
-        -- first pass: locate
-        let found : Option (List (α × Nat × Array α) × Array α) :=
-          (List.range nEv).foldl (fun acc i =>
-            match acc with
-            | none => none
-            | some (lst, log) =>
-              let gp := s.prevEvent.getD i L.zero
-              let gc := gCurr.getD i L.zero
-              if crossed L gp gc (s.cfg.getD i ⟨.all, none⟩).dir then
-                match ip with
-                | some ipv =>
-                  let (te, ye, lg) := locate L ipv (fun t yy => (gEv t yy).getD i L.zero) xold x s.yold y gp gc
-                  some (lst ++ [(te, i, ye)], log ++ lg)
-                | none =>
-                  -- `interpolant.unwrap()` is reached only in the Brent branch
-                  if Num.abs gp ≤ L.xtol then some (lst ++ [(xold, i, s.yold)], log)
-                  else if Num.abs gc ≤ L.xtol then some (lst ++ [(x, i, y)], log)
-                  else none
-              else some (lst, log)) (some ([], #[]))
-        match found with
-        | none => none
-        | some (lst, log) =>
-          let s := { s with evalLog := s.evalLog ++ log }
-          match sortEvs (decide (x > xold)) lst with
-          | none => none
-          | some sorted =>
-            let (s, fired) := processEvs s sorted
-            some ({ s with prevEvent := gCurr }, fired)
-    else some (s, false)
-  match evRes with
+  match eventPhase L gEv (denseCollect L s xold x ip) xold x y ip with
   | none => none
   | some (s, true) => some (s, .interrupt)
   | some (s, false) =>
-    -- Update state history
-    let s := { s with yold := y }
-    -- Output Sampling
-    match s.tEval with
-    | some te =>
-      if Num.abs (xold - x) ≤ s.tol then
-        -- initial callback: matching t_eval points
-        let rec loop0 (fuel i : Nat) (s : St α) : St α :=
-          match fuel with
-          | 0 => { s with nextIdx := i }
-          | f + 1 =>
-            if h : i < te.size then
-              if Num.abs (te[i] - x) ≤ s.tol then loop0 f (i + 1) { s with t := s.t.push te[i], y := s.y.push y }
-              else { s with nextIdx := i }
-            else { s with nextIdx := i }
-        some (loop0 (te.size + 1) s.nextIdx s, .cont)
-      else
-        let fwd := decide (x > xold)
-        let rec loop1 (fuel i : Nat) (s : St α) : Option (St α) :=
-          match fuel with
-          | 0 => some { s with nextIdx := i }
-          | f + 1 =>
-            if h : i < te.size then
-              let inUpper := if fwd then decide (te[i] ≤ x + s.tol) else decide (te[i] ≥ x - s.tol)
-              if inUpper then
-                let inLower := if fwd then decide (te[i] ≥ xold - s.tol) else decide (te[i] ≤ xold + s.tol)
-                if inLower then
-                  match ip with
-                  | some ipv => loop1 f (i + 1) { s with t := s.t.push te[i], y := s.y.push (ipv.eval te[i]) }
-                  | none => none
-                else loop1 f (i + 1) s
-              else some { s with nextIdx := i }
-            else some { s with nextIdx := i }
-        match loop1 (te.size + 1) s.nextIdx s with
-        | some s => some (s, .cont)
-        | none => none
-    | none =>
-      -- Mode 2
-      let enforce : Option (St α) :=
-        match s.firstStep with
-        | some h0 =>
-          if ¬ s.firstOutputDone ∧ Num.abs (xold - x) > s.tol then
-            let direction := Num.signum (x - xold)
-            let target := s.x0 + direction * h0
-            if direction * (x - target) ≥ -s.tol then
-              let s := match ip with
-                | some ipv => { s with t := s.t.push target, y := s.y.push (ipv.eval target), firstOutputDone := true }
-                | none => s
-              let s := if Num.abs (x - target) > s.tol then { s with t := s.t.push x, y := s.y.push y } else s
-              some s
-            else some s
-          else none
-        | none => none
-      match enforce with
-      | some s => some (s, .cont)
-      | none =>
-        let dup := match s.t.back? with
-          | some last => decide (Num.abs (last - x) > s.tol)
-          | none => true
-        if dup then some ({ s with t := s.t.push x, y := s.y.push y }, .cont) else some (s, .cont)
+    -- Update state history, then Output Sampling
+    match outputPhase { s with yold := y } xold x y ip with
+    | some s => some (s, .cont)
+    | none => none
 
 end SolOutM
